@@ -149,6 +149,18 @@ def _stream_worker(a):
         hostile = rng.random() < 0.5
         # keep only lines that cannot crash-prone paths? no: the comparison is between segmentations of the SAME stream
         data = join(rng, mutate(rng, lines, ids) if hostile else [l.encode("latin-1") for l in lines])
+        if seed % 4 == 1:
+            # a dense burst: hundreds of clients whose lines are a few bytes each (several hundred lines fit into one read),
+            # announced, completed, hurried, withdrawn - what a server sends after a netsplit
+            n_ = rng.choice([150, 400, 1000])
+            dl = []
+            for k in range(n_):
+                dl.append("%d C 10.0.%d.%d 1 10.0.0.1 1" % (k + 1, k >> 8, k & 255))
+            for cmd in rng.sample(["d", "u a", "n b", "U a b c :d", "H", "D", "T"], 7)[:rng.choice([3, 5, 7])]:
+                for k in range(n_):
+                    dl.append("%d %s" % (k + 1, cmd))
+            dl.append("-1 ? stats")
+            data = ("\n".join(dl) + "\n").encode("latin-1")
         ref_out, ref_r = daemon.run_batch(b, conf, data, leaks=True, timeout=WD)
         ref_out = comparable(ref_out)
         results.append(("chunk-ref", data, ref_r, None))
@@ -404,7 +416,7 @@ def run(chk, tier, scale=1.0):
     chk.rule = ("(1) hostile streams: grammar-aware mutation of good multi-client histories - parameters dropped one at a time from every command (bare-id lines, every data "
                 "command without its argument), 0..40 arguments, empty / whitespace / colon-only lines, CR LF mixtures, NUL and high bytes, 600 B..70 KB lines, ids at and "
                 "beyond the limits of int and long, every command with id -1 and with live ids, replies with every malformed tag, random bytes; (2) peer death: %s prefixes of "
-                "streams; (3) the same stream under read() segmentations of at most 1,2,3,7,16,100,1000 bytes chosen by the guarded chunk hook must give identical stdout; "
+                "streams; (3) the same stream (a quarter of them dense bursts of 150-1000 clients with lines of a few bytes) under read() segmentations of at most 1,2,3,7,16,100,1000 bytes chosen by the guarded chunk hook must give identical stdout; "
                 "every third segmentation run additionally has 30-60 %% of the read()/readv() calls on fd 0 fail with EINTR / EAGAIN (LD_PRELOAD shim); (5) hostile streams fed to the UNSANITIZED build under valgrind memcheck (uninitialised values, invalid reads and writes); (3d) streams interrupted for 11.3 s so that the statistics asked for afterwards report requests more than ten seconds old; (3c) streams interrupted by a SIGUSR1 whose file lists the same modules in another order; (3b) streams interrupted for 1.6 s under a 1 s request timeout so that the real timers of pending, refused and abandoned requests expire; (4) a good stream with junk lines (unknown ids, unknown command words, malformed replies) mixed in must give identical stdout; oracle for all: exit 0 at end "
                 "of input, no ASan / UBSan / LeakSanitizer report, no hang; distinct = hash of input; non-trivial = non-empty input" % ("60 sampled per stream" if q else "all"))
     chk.require("runs_hostile", 500 * min(1.0, scale))
